@@ -111,6 +111,15 @@ let () =
           match flags.[i] with '1' -> true | '0' -> false | _ -> raise (Parse "flag")) in
         string_of_int (int_of_nat (Model.kept_count l)))
     | _ -> failwith "c12.sorting args");
+  (* c12.chunk SRC TGT I J ROW...: the column-chunk view of the rows I .. J-1 of the converted row group, one
+     column per target column ('?' = not a copied column: not modelled) *)
+  register "c12.chunk" (function
+    | src :: tgt :: i :: j :: rows -> guard (fun () ->
+        let s = parse_schema src and t = parse_schema tgt in
+        let views = Model.chunk_views_bytes s t (nat_of_int (int_of_string i)) (nat_of_int (int_of_string j))
+                      (List.map parse_row rows) in
+        String.concat "|" (List.map (function Some c -> show_column c | None -> "?") views))
+    | _ -> failwith "c12.chunk args");
   register "c12.compat" (function
     | [src; tgtn; tgt] -> guard (fun () ->
         let s = parse_schema src and tn = parse_schema tgtn and t = parse_schema tgt in
